@@ -323,10 +323,15 @@ class C09World(WalletWorld):
     def op_mixed(self, wi):
         """Keys of another witness type in the same (private HD) wallet."""
         ch, w = self.ch, self.w
-        if wi.kind != 'hd':
+        ms_all_private = wi.kind == 'ms' and wi.wt != 'legacy' and wi.ref.get('n_priv') == wi.n
+        if wi.kind != 'hd' and not ms_all_private:
             return
         h = self.H(wi)
-        wt = ch.pick('mixed_wt', [x for x in ('segwit', 'p2sh-segwit', 'legacy') if x != wi.wt])
+        if ms_all_private:
+            # BIP48 wallet whose cosigner keys are all master keys: the other script type can be derived as well
+            wt = 'segwit' if wi.wt == 'p2sh-segwit' else 'p2sh-segwit'
+        else:
+            wt = ch.pick('mixed_wt', [x for x in ('segwit', 'p2sh-segwit', 'legacy') if x != wi.wt])
         how = ch.pick('mixed_how', ['new_key', 'get_key', 'new_key_change'])
         before = self.listing(wi, h)
         w.op('mixed_' + how, wallet=wi.name, witness_type=wt)
